@@ -596,6 +596,7 @@ func (d *dec) walk() {
 // KnownDeviations lists every named deviation this decoder can tolerate (see notes/indep-deviations.md).
 var KnownDeviations = []string{
 	"btree2-empty-root",
+	"btree2-equal-hash-order",
 	"superblock-crc32",
 	"superblock-eof-stale",
 	"ohdr-v2-no-checksum",
@@ -603,7 +604,6 @@ var KnownDeviations = []string{
 	"fheap-crc32",
 	"attr-btree2-type5",
 	"fheap-offsets-exclude-block-header",
-	"fheap-block-exceeds-heap-space",
 	"fheap-addr-zero-for-undefined",
 	"gcol-free-size-excludes-header",
 	"refcount-msg-no-version",
